@@ -152,9 +152,62 @@ fn fieldvec_cases(out: &mut Out, rng: &mut Sm, rounds: usize) {
     }
 }
 
+/// `Poplar1::unshard`: the aggregate shares must be of the kind (inner / leaf) and length the
+/// aggregation parameter says; the result is their sum over the candidates
+fn poplar1_unshard_cases(out: &mut Out, rng: &mut Sm, rounds: usize) {
+    use prio::idpf::IdpfInput;
+    use prio::vdaf::poplar1::{Poplar1, Poplar1AggregationParam};
+    use prio::vdaf::Collector;
+    for _ in 0..rounds {
+        let bits = 1 + rng.below(5) as usize;
+        let level = rng.below(bits as u64) as usize;
+        let vdaf = Poplar1::new_turboshake128(bits);
+        // distinct sorted prefixes of length level + 1
+        let mut set: std::collections::BTreeSet<Vec<bool>> = Default::default();
+        for _ in 0..(1 + rng.below(3)) {
+            set.insert((0..level + 1).map(|_| rng.below(2) == 1).collect());
+        }
+        let prefixes: Vec<Vec<bool>> = set.into_iter().collect();
+        let ap = Poplar1AggregationParam::try_from_prefixes(prefixes.iter().map(|p| IdpfInput::from_bools(p)).collect()).unwrap();
+        let want_leaf = level + 1 == bits;
+        let nshares = rng.below(4) as usize;
+        let mut shares = vec![];
+        let mut shown = vec![];
+        let mut all_match = true;
+        for _ in 0..nshares {
+            let leaf = if rng.below(5) == 0 { !want_leaf } else { want_leaf };
+            let len = match rng.below(6) {
+                0 => prefixes.len() + 1,
+                1 => prefixes.len().saturating_sub(1),
+                _ => prefixes.len(),
+            };
+            all_match &= leaf == want_leaf && len == prefixes.len();
+            if leaf {
+                // small values so that the leaf sum converts to u64
+                let v: Vec<Field255> = (0..len).map(|_| Field255::from(rng.next() % 1000)).collect();
+                shown.push(format!("L:{}", enc(&v)));
+                shares.push(Poplar1FieldVec::Leaf(v));
+            } else {
+                let v = rand_vec::<Field64>(rng, len);
+                shown.push(format!("I:{}", enc(&v)));
+                shares.push(Poplar1FieldVec::Inner(v));
+            }
+        }
+        let r = vdaf.unshard(&ap, shares, nshares);
+        out.oracle(r.is_ok() == all_match, || format!("poplar1 unshard bits={} level={} prefixes={} shares={}", bits, level, prefixes.len(), shown.join(" ")), || format!("unshard {} although the shares {} the aggregation parameter", if r.is_ok() { "succeeded" } else { "failed" }, if all_match { "match" } else { "do not match" }));
+        let imp = match &r {
+            Ok(v) => format!("ok {}", v.iter().map(|x| x.to_string()).collect::<Vec<_>>().join(",")),
+            Err(_) => "err".into(),
+        };
+        out.case(format!("popunshard {} {} {}", if want_leaf { "L" } else { "I" }, prefixes.len(), if shown.is_empty() { "-".to_string() } else { shown.join(" ") }), imp);
+        out.count(&format!("popunshard.{}", if r.is_ok() { "ok" } else { "err" }));
+    }
+}
+
 pub fn run(out: &mut Out, thorough: bool, seed: u64) {
     let mut rng = Sm::new(seed ^ 0xC13);
     let rounds = if thorough { 4000 } else { 400 };
+    poplar1_unshard_cases(out, &mut rng, rounds / 2);
     field_cases::<FieldPrio2>(out, &mut rng, rounds);
     field_cases::<Field64>(out, &mut rng, rounds);
     field_cases::<Field128>(out, &mut rng, rounds);
